@@ -564,17 +564,17 @@ def run_f12(chk, repo):
     from sa import reach
     cfg = CFG(f.node)
     sites = []
-    for a in ast.walk(f.node):
-        if isinstance(a, ast.Assign) and isinstance(a.targets[0], ast.Subscript):
-            nid = reach.node_of(cfg, a)
-            val = reach.expand_expr(cfg, nid, a.value) if nid is not None else a.value
-            if any(isinstance(x, ast.Attribute) and x.attr == 'amount' and 'doses' in unparse(x.value) for x in ast.walk(val)):
-                sites.append((a, val))
+    # every way a value is put into the result mapping (d[k] = v, d.update(pairs / dict), comprehension): sa/reach.mapping_stores
+    for a, v in reach.mapping_stores(f.node):
+        nid = reach.node_of(cfg, a)
+        val = reach.expand_expr(cfg, nid, v) if nid is not None else v
+        if any(isinstance(x, ast.Attribute) and x.attr == 'amount' and 'doses' in unparse(x.value) for x in ast.walk(val)):
+            sites.append((a, val))
     if not sites:
         raise AnalysisError('F12: assignment of the dose amount to an initial condition not found')
     for a, val in sites:
         ok = any(isinstance(x, ast.Attribute) and x.attr == 'bioavailability' for x in ast.walk(val))
-        chk.instance(F12, f'get_initial_conditions: `{unparse(a)[:80]}` uses the bioavailability: {ok}')
+        chk.instance(F12, f'get_initial_conditions: `{unparse(val)[:80]}` uses the bioavailability: {ok}')
         if not ok:
             chk.violation(F12, om.rel, f.name, unparse(a)[:100],
                           'the amount that enters the compartment is dose * F; the closed-form solution built from these initial '
@@ -661,16 +661,56 @@ def run_f13_f14(chk, repo):
     g = rm.functions.get('replace_non_random_rvs')
     if g is None:
         raise AnalysisError('replace_non_random_rvs not found')
-    tests = [I for I in ast.walk(g.node) if isinstance(I, ast.If) and any(
-        isinstance(c, ast.Call) and isinstance(c.func, ast.Attribute) and c.func.attr == 'append' for s_ in I.body
-        for c in ast.walk(s_)) and {'init', 'fix'} <= {x.attr for x in ast.walk(I.test) if isinstance(x, ast.Attribute)}]
+    # the keep decision: `if <test>: keep.append(dist)`. The test is either written on the parameter itself (inside the loop
+    # over the parameters) or quantified over them (`not all(map(is_fixed_to_zero, names))`, `any(not f(p) for p in names)`),
+    # with the per-parameter predicate in a local function or lambda. For a distribution with one parameter both say:
+    # keep iff K(init, fix); K is extracted and its truth table evaluated.
+    from sa import reach as _reach
+    local_fns = _reach.local_callables(g.node)
+
+    def fn_body(fexpr):
+        d = local_fns.get(fexpr.id) if isinstance(fexpr, ast.Name) else fexpr if isinstance(fexpr, ast.Lambda) else None
+        if isinstance(d, ast.Lambda):
+            return d.body
+        if isinstance(d, ast.FunctionDef):
+            rets = [r.value for r in ast.walk(d) if isinstance(r, ast.Return) and r.value is not None]
+            return rets[0] if len(rets) == 1 else None
+        return None
+
+    def per_param(t):
+        neg = False
+        while isinstance(t, ast.UnaryOp) and isinstance(t.op, ast.Not):
+            t, neg = t.operand, not neg
+        if isinstance(t, ast.Call) and dotted(t.func) in ('all', 'any') and len(t.args) == 1:
+            a_ = t.args[0]
+            body = None
+            if isinstance(a_, ast.Call) and dotted(a_.func) == 'map' and len(a_.args) == 2:
+                body = fn_body(a_.args[0])
+            elif isinstance(a_, (ast.GeneratorExp, ast.ListComp)) and len(a_.generators) == 1 and not a_.generators[0].ifs:
+                e_ = a_.elt
+                n2 = False
+                while isinstance(e_, ast.UnaryOp) and isinstance(e_.op, ast.Not):
+                    e_, n2 = e_.operand, not n2
+                body = fn_body(e_.func) if isinstance(e_, ast.Call) and isinstance(e_.func, (ast.Name, ast.Lambda)) else e_
+                neg = neg != n2
+            if body is None:
+                return None
+            return body, neg
+        return t, neg
+    tests = []
+    for I in ast.walk(g.node):
+        if isinstance(I, ast.If) and any(isinstance(c, ast.Call) and isinstance(c.func, ast.Attribute) and c.func.attr == 'append'
+                                         for s_ in I.body for c in ast.walk(s_)):
+            pp = per_param(I.test)
+            if pp is not None and {'init', 'fix'} <= {x.attr for x in ast.walk(pp[0]) if isinstance(x, ast.Attribute)}:
+                tests.append((I, pp[0], pp[1]))
     if not tests:
         raise AnalysisError('F14: keep test of replace_non_random_rvs not found')
-    for I in tests:
-        pv = next(unparse(x.value) for x in ast.walk(I.test) if isinstance(x, ast.Attribute) and x.attr == 'init')
+    for I, pred, neg in tests:
+        pv = next(unparse(x.value) for x in ast.walk(pred) if isinstance(x, ast.Attribute) and x.attr == 'init')
         for init, fix in ((0.0, True), (0.0, False), (0.5, True), (0.5, False)):
             try:
-                keep = bool(T.eval_pred(I.test, {f'{pv}.init': init, f'{pv}.fix': fix}))
+                keep = bool(T.eval_pred(pred, {f'{pv}.init': init, f'{pv}.fix': fix})) != neg
             except T.Undecidable as e:
                 raise AnalysisError(f'F14: keep test not evaluable: {e}')
             want = not (init == 0.0 and fix)
